@@ -4,6 +4,7 @@
 use vstd::prelude::*;
 use std::rc::Rc;
 use std::cmp::Ordering;
+use std::collections::{BTreeMap, BTreeSet};
 use vstd::std_specs::cmp::PartialEqSpec;
 
 verus! {
